@@ -83,6 +83,8 @@ type c23Case struct {
 	QVals   int `json:"qvals,omitempty"`   // quorum validators 1..4
 	QSigner int `json:"qsigner,omitempty"` // proposer index; >= QVals: outsider
 	QSeals  int `json:"qseals,omitempty"`  // committed seals by distinct validators
+
+	Persist bool `json:"persist,omitempty"` // registry and tracked chain are flushed to the store before the import
 }
 
 var c23ValKinds = []string{"genuine", "genuine", "genuine", "genuine", "genuine", "leadzero", "leadzero", "untrimmed", "suffix", "suffix", "suffix",
@@ -140,6 +142,7 @@ func genC23(t *rapid.T) c23Case {
 	c.Salt = rapid.Uint32().Draw(t, "salt")
 	c.Mut = rapid.SampledFrom(c23Muts).Draw(t, "mut")
 	c.MutA = rapid.IntRange(0, 1000).Draw(t, "muta")
+	c.Persist = rapid.Bool().Draw(t, "persist")
 	if c.Router == "quorum" {
 		c.QVals = rapid.IntRange(1, 4).Draw(t, "qvals")
 		c.QSigner = rapid.IntRange(0, c.QVals).Draw(t, "qsigner")
@@ -762,6 +765,9 @@ func runC23(ctx *ev.Ctx, c c23Case) {
 		if len(stA.slotVals[effSlot]) < 32 && bytes.HasSuffix(crypto.Keccak256(submitted), stA.slotVals[effSlot]) {
 			ctx.Label("value:short-slot-is-suffix-of-message-hash")
 		}
+	}
+	if c.Persist {
+		e.w.Persist()
 	}
 	before := e.w.Dump()
 	res := e.w.Invoke(utils.CrossChainManagerContractAddress, "ImportOuterTransfer", tx.args(), tx.signers)
